@@ -56,7 +56,7 @@ SUFFIXES = ["", ".b", ".w", ".l"]
 
 META = {
     "bounds": {
-        "quick": "one instruction per program; operand v in [0,2^32) symbolic; all mnemonics (tree table + ISA) x 28 operand shapes x 4 suffixes; lower case everywhere + upper case for every mnemonic",
+        "quick": "one instruction per program; operand v in [0,2^32) symbolic; all mnemonics (tree table + ISA) x 28 operand shapes x 4 suffixes; lower case everywhere + upper case for every mnemonic; 6 mnemonics with the operand written as a literal (hex 1-6 digits incl. leading zeros, decimal 1-5, binary 1/8/9 digits, all digits symbolic) x 15 well-formed shapes x 4 suffixes",
         "thorough": "same + mixed case variants (upper mnemonic only, upper suffix only, upper index only)",
     },
     "outside": [
@@ -123,7 +123,14 @@ def jobs(tier, seed):
             for order in ("label-after", "label-before"):
                 for mn, _ in CONTEXT_MNS:
                     ctx.append({"id": f"context/{w}/{o}/{order}/{mn}", "fam": "context", "wrapper": w, "outer": o, "order": order, "mn": mn})
-    return ctx + _instruction_jobs(tier, seed, mns)
+    # the operand written as a literal in the instruction: every hex literal of 1-6 digits (leading zeros included),
+    # decimal of 1-5 digits, binary of 1-9 digits -- the width follows the VALUE, not the spelling
+    lit = []
+    for mn in ("lda", "sta", "jmp", "ldx", "rep", "cmp"):
+        for base, lens in (("hex", range(1, 7)), ("dec", range(1, 6)), ("bin", (1, 8, 9))):
+            for n in lens:
+                lit.append({"id": f"literal/{mn}/{base}{n}", "mn": mn, "case": "lower", "fam": "literal", "base": base, "n": n})
+    return ctx + lit + _instruction_jobs(tier, seed, mns)
 
 
 def _instruction_jobs(tier, seed, mns):
@@ -160,11 +167,26 @@ def run(spec, cx):
         if r[0] == "ok":
             return ("ok", [(a, b) for a, b in r[1]])
         return ("rejected", "error-string" if r[0] == "error" else type(r[1]).__name__)
-    shape_i = _pick(cx.choice("shape", list(range(len(SHAPES)))))
-    suffix = _pick(cx.choice("suffix", SUFFIXES))
-    v = cx.int("v", 0, 0xFFFFFFFF)
-    src = source(spec["mn"], shape_i, suffix, spec["case"])
-    r = assemble(src, {"v": v})
+    if spec.get("fam") == "literal":
+        lit_shapes = [i for i, sh in enumerate(SHAPES) if sh[3] == "v" and sh[2] is not None]
+        shape_i = _pick(cx.choice("shape", lit_shapes))
+        suffix = _pick(cx.choice("suffix", SUFFIXES))
+        doms = {"hex": sorted(ord(c) for c in "0123456789abcdefABCDEF"), "dec": list(range(0x30, 0x3A)), "bin": [0x30, 0x31]}[spec["base"]]
+        digits = []
+        for i in range(spec["n"]):
+            dom = doms if not (spec["base"] == "dec" and i == 0 and spec["n"] > 1) else doms[1:]     # no leading zero in decimal
+            digits.append(cx.char(f"d{i}", dom))
+        text = source(spec["mn"], shape_i, suffix, spec["case"])
+        k = text.index("v", text.index("\n") + 1 + len(spec["mn"]))
+        prefix = {"hex": "0x", "dec": "", "bin": "0b"}[spec["base"]]
+        src = cx.string([ord(c) for c in text[:k] + prefix] + digits + [ord(c) for c in text[k + 1:]])
+        r = assemble(src, {})
+    else:
+        shape_i = _pick(cx.choice("shape", list(range(len(SHAPES)))))
+        suffix = _pick(cx.choice("suffix", SUFFIXES))
+        v = cx.int("v", 0, 0xFFFFFFFF)
+        src = source(spec["mn"], shape_i, suffix, spec["case"])
+        r = assemble(src, {"v": v})
     if r[0] == "ok":
         return ("ok", shape_i, suffix, [(a, b) for a, b in r[1]])
     if r[0] == "error":
@@ -174,6 +196,16 @@ def run(spec, cx):
 
 def _value(expr, v):
     return {"v": v, "v+1": v + 1, "v<<8": v << 8, "v*2": v * 2}[expr]
+
+
+def _literal_value(spec, cx):
+    base = {"hex": 16, "dec": 10, "bin": 2}[spec["base"]]
+    val = B(0)
+    for i in range(spec["n"]):
+        c = z3.ZeroExt(56, cx.t(f"d{i}"))
+        dig = z3.If(c <= 0x39, c - 0x30, z3.If(c >= 0x61, c - 0x57, c - 0x37))
+        val = val * base + dig
+    return val
 
 
 def check_context(spec, cx, out):
@@ -208,7 +240,7 @@ def check(spec, cx, out):
     mn = spec["mn"]
     kind, shape_i, suffix = out[0], out[1], out[2]
     name, text, isa_shape, vexpr = SHAPES[shape_i]
-    v = cx.t("v")
+    v = _literal_value(spec, cx) if spec.get("fam") == "literal" else cx.t("v")
     res = []
     if mn in BRANCHES and isa_shape == "dir":
         return [("branch-operand-left-to-C05", z3.BoolVal(True))]
